@@ -7,12 +7,16 @@ package main
 // controller releases exactly one worker at a time and waits until it reports the next scheduling
 // point (or that it finished / panicked).  Lock ownership is tracked from the scheduling points
 // alone: the pool lock is never held at a scheduling point; a connection mutex is held by a worker
-// exactly while it sits at "cb" or at a "remove.lock" reached from a connection lock.  A worker is
-// released only if the lock it is about to take is free, so a released worker can always run to its
-// next scheduling point; a watchdog reports `blocked` if it does not.
+// exactly while it sits at "cb" or at a "remove.lock" reached from a connection lock — except the
+// second remove of reassembly's FlushWithOptions, which runs AFTER conn.mu.Unlock(): a "remove.lock"
+// reached from "flush.connlock" without a ReassemblyComplete callback in the same segment
+// (closeHalfConnection calls remove only directly after ReassemblyComplete), or from the nested
+// "remove.lock".  A worker is released only if the lock it is about to take is free, so a released
+// worker can always run to its next scheduling point; a watchdog reports `blocked` if it does not.
 
 import (
 	"fmt"
+	"reflect"
 	"runtime/debug"
 	"time"
 
@@ -42,8 +46,13 @@ type worker struct {
 	panMsg  string
 	panSite string
 	opIdx   int  // index of the op being executed
-	inFlush bool // current op is FlushAll
+	inFlush bool // current op is FlushAll / FlushWithOptions
+	inOld   bool // current op is FlushWithOptions
 	curKey  [2]int
+	segComplete bool        // a ReassemblyComplete callback ran in the segment being executed
+	rmCon       interface{} // connection a "remove.lock" point belongs to
+	rmNested    bool        // … reached inside that connection's critical section
+	snapRemoved map[interface{}]int // `removed` counters at the time of the current Flush* call's snapshot
 }
 
 type controller struct {
@@ -56,6 +65,28 @@ type controller struct {
 	waited  bool // some schedule entry named a goroutine that was waiting for a connection mutex
 	removed map[interface{}]int // per connection object: completed `remove` segments (nested in its mutex)
 	stale   bool                // a callback ran on a connection that was removed since the goroutine looked it up
+	foreign bool                // an un-nested remove (reassembly FlushWithOptions) deleted a map entry
+	frmCut  int                 // number of recorded events before the first such remove
+	connCount func() int        // number of entries of the pool's map (only called while no goroutine runs)
+	trace   []traceStep         // every release: who ran, who could have run (used by the exhaustive generator)
+}
+
+type traceStep struct {
+	tid     int
+	enabled uint32 // bit t: goroutine t could have been released instead
+}
+
+// lastTrace is the trace of the most recent controlled run.
+var lastTrace []traceStep
+
+func (c *controller) note(w *worker) {
+	var m uint32
+	for i, o := range c.ws {
+		if c.enabled(o) {
+			m |= 1 << uint(i)
+		}
+	}
+	c.trace = append(c.trace, traceStep{w.id, m})
 }
 
 var ctl *controller // nil outside a controlled run
@@ -111,6 +142,24 @@ func (c *controller) spawn(w *worker, body func(w *worker)) {
 func (c *controller) release(w *worker) bool {
 	c.cur = w
 	prevPoint := w.point
+	w.segComplete = false
+	if (prevPoint == "asm.connlock" || prevPoint == "flush.connlock") && w.lastCon != nil &&
+		c.removed[w.lastCon] != w.lookupEpoch && connOpen(w.lastCon) {
+		// w is about to lock a connection object that was removed from the pool after w obtained the
+		// pointer, and the object is open again: it has been recycled (connection.reset) for another
+		// connection.  Whatever w does now (deliver, queue, close, flush) it does to the wrong connection.
+		lib.Stat("branch:stale-use")
+		if !c.stale {
+			c.stale = true
+			finding("pool:"+pkgTag()+":stale-delivery", fmt.Sprintf("goroutine %d locks and uses a connection object that was closed, removed from the pool and recycled (connection.reset) after the goroutine obtained its pointer", w.id))
+		}
+	}
+	before := -1
+	evBefore := 0
+	if prevPoint == "remove.lock" && !w.rmNested && c.connCount != nil {
+		before = c.connCount()
+		evBefore = len(c.rec.events)
+	}
 	w.resume <- true
 	var r report
 	select {
@@ -125,20 +174,52 @@ func (c *controller) release(w *worker) bool {
 	if prevPoint == "remove.lock" && w.holds != nil {
 		c.removed[w.holds]++ // the nested remove segment has run
 	}
+	if before >= 0 {
+		// The un-nested remove of reassembly's FlushWithOptions.  It is called only for a connection
+		// whose halves are both closed; closeHalfConnection removed that connection from the pool
+		// when its stream was completed (the scripted ReassemblyComplete returns true), so an entry
+		// deleted now belongs to another connection stored under the same key, or to the same
+		// object recycled for a new connection.
+		lib.Stat("branch:unnested-remove")
+		if after := c.connCount(); after < before {
+			c.removed[w.rmCon]++
+			if !c.foreign {
+				c.foreign = true
+				c.frmCut = evBefore
+				finding("pool:"+pkgTag()+":flush-remove-foreign", "FlushWithOptions: the remove() after conn.mu.Unlock() deleted a map entry although the visited connection had already been removed from the pool when it was completed")
+			}
+		}
+	}
 	if r.w != w {
 		panic(fmt.Sprintf("scheduler: report from worker %d while %d was running", r.w.id, w.id))
 	}
 	w.point, w.lock = r.point, r.lock
 	switch r.point {
-	case "asm.connlock", "flush.connlock":
+	case "asm.connlock":
 		w.lastCon = r.lock
 		w.lookupEpoch = c.removed[r.lock]
+		w.holds = nil
+	case "flush.connlock":
+		// a Flush* call obtained ALL its pointers when it took the snapshot of the pool
+		if prevPoint == "conns.rlock" || w.snapRemoved == nil {
+			w.snapRemoved = make(map[interface{}]int, len(c.removed))
+			for k, v := range c.removed {
+				w.snapRemoved[k] = v
+			}
+		}
+		w.lastCon = r.lock
+		w.lookupEpoch = w.snapRemoved[r.lock]
 		w.holds = nil
 	case "cb":
 		w.holds = w.lastCon
 	case "remove.lock":
 		// nested inside the connection's critical section when reached from connlock / cb
-		if prevPoint == "asm.connlock" || prevPoint == "flush.connlock" || prevPoint == "cb" {
+		w.rmCon = w.lastCon
+		w.rmNested = prevPoint == "asm.connlock" || prevPoint == "flush.connlock" || prevPoint == "cb"
+		if curPkg != "asm" && w.inOld && !w.segComplete {
+			w.rmNested = false // FlushWithOptions: remove after conn.mu.Unlock()
+		}
+		if w.rmNested {
 			w.holds = w.lastCon
 		} else {
 			w.holds = nil
@@ -195,6 +276,7 @@ func (c *controller) run(sched []int) {
 		}
 		if w := c.ws[t]; c.enabled(w) {
 			lib.Stat("point:" + w.point)
+			c.note(w)
 			c.release(w)
 		} else if !w.ended {
 			lib.Stat("sched:skip-blocked")
@@ -210,6 +292,7 @@ func (c *controller) run(sched []int) {
 			}
 			if c.enabled(w) {
 				lib.Stat("point:" + w.point)
+				c.note(w)
 				c.release(w)
 				moved = true
 				fuel--
@@ -252,4 +335,29 @@ func panicSiteOf(stack string) string {
 		}
 	}
 	return "?"
+}
+
+// connOpen reads, by reflection, whether the connection object behind a lock identity is open
+// (tcpassembly: !closed; reassembly: not both halves closed).  Used only to classify a case as one of
+// the known stale-pointer histories; called while no goroutine runs.
+func connOpen(lock interface{}) bool {
+	v := reflect.ValueOf(lock)
+	if v.Kind() != reflect.Ptr || v.IsNil() || v.Elem().Kind() != reflect.Struct {
+		return false
+	}
+	e := v.Elem()
+	if f := e.FieldByName("closed"); f.IsValid() && f.Kind() == reflect.Bool {
+		return !f.Bool()
+	}
+	open := false
+	for _, n := range []string{"c2s", "s2c"} {
+		h := e.FieldByName(n)
+		if !h.IsValid() || h.Kind() != reflect.Struct {
+			return false
+		}
+		if f := h.FieldByName("closed"); f.IsValid() && f.Kind() == reflect.Bool && !f.Bool() {
+			open = true
+		}
+	}
+	return open
 }
